@@ -11,6 +11,9 @@ use tauri_typegen::generators::base::templates::verif_add_types_prefix;
 use verif_native::*;
 
 const TEXT_ALPHABET: &[&str] = &["a", "1", "\"", "'", "\\", "=", ",", "(", ")", " ", "_", "ß", "€", "\u{2003}", "😀", "-"];
+// keyword alphabets: repeated / overlapping keywords drive the search loops of the token-string parsers
+const SERDE_ALPHABET: &[&str] = &["rename", "_all", "=", " ", "\"", ",", "a", "_", "de", "(", ")", "ß"];
+const VALID_ALPHABET: &[&str] = &["min", "max", "message", "length", "range", "=", " ", "\"", ",", "(", ")", "1", "-", "a", "\\"];
 const TYPE_ALPHABET: &[&str] = &["Option<", "Vec<", "Result<", "HashMap<", "HashSet<", "BTreeMap<", "(", ")", ">", ",", ", ", "&", "&'a ",
     "&mut ", "String", "i32", "T", "ß", "€", " ", "[", "]"];
 const TS_ALPHABET: &[&str] = &["string", "User", "[]", " | null", " | undefined", "Record<", "Map<", "[", "]", "types.", ">", ", ", "ß", "€", "(", ")"];
@@ -56,6 +59,11 @@ fn main() {
            TEXT_ALPHABET, depth, &|s| format!("{:?}", sp.verif_parse_rename(s)));
     family(&mut rep, "parse_rename_all", &[("rename_all", ""), ("rename_all = \"", "\""), ("", "")],
            TEXT_ALPHABET, depth, &|s| format!("{:?}", sp.verif_parse_rename_all(s).map(|r| r.to_rename_all_str())));
+    family(&mut rep, "parse_rename", &[("", "")], SERDE_ALPHABET, depth + 1, &|s| format!("{:?}", sp.verif_parse_rename(s)));
+    family(&mut rep, "parse_rename_all", &[("", "")], SERDE_ALPHABET, depth + 1, &|s| format!("{:?}", sp.verif_parse_rename_all(s).map(|r| r.to_rename_all_str())));
+    family(&mut rep, "parse_message_from_content", &[("", "")], VALID_ALPHABET, depth, &|s| format!("{:?}", vp.verif_parse_message_from_content(s)));
+    family(&mut rep, "parse_length_from_tokens", &[("", "")], VALID_ALPHABET, depth, &|s| format!("{:?}", vp.verif_parse_length_from_tokens(s)));
+    family(&mut rep, "parse_range_from_tokens", &[("", "")], VALID_ALPHABET, depth, &|s| format!("{:?}", vp.verif_parse_range_from_tokens(s)));
     family(&mut rep, "parse_type_structure", &[("", ""), ("Result<", ", String>"), ("(", ")"), ("HashMap<", ">")],
            TYPE_ALPHABET, depth, &|s| format!("{:?}", tr.parse_type_structure(s)));
     family(&mut rep, "extract_type_names", &[("", ""), ("Result<", ">"), ("(", ")")],
